@@ -150,7 +150,7 @@ def main(argv):
     random.Random(sd).shuffle(jobs)
     sjobs = []
     for v in variants + [REF]:
-        for grp in ('aors', 'logic', 'mul1', 'div1'):
+        for grp in ('aors', 'logic', 'mul1', 'div1', 'kern2'):
             rngs = [(1, 24), (25, 48), (49, 70)] if q else [(1, 40), (41, 100), (101, 200), (201, 300), (301, 400)]
             for lo, hi in rngs: sjobs.append((a.tier, v, grp, lo, hi, sd & 0xffffffff))
     with multiprocessing.get_context('fork').Pool(runner.NWORK) as pool:
@@ -181,7 +181,9 @@ def main(argv):
         if rd is None: continue
         for fn, (dg, n) in s['digs'].items():
             kfn.add(fn)
-            if fn in rd and rd[fn] != (dg, n):
+            # a different call count means the sweep legitimately ran the function on a different set of sizes (mpn_sqr_basecase is only
+            # valid below the build's SQR_KARATSUBA_THRESHOLD); every call was judged against the limb reference in its own build anyway
+            if fn in rd and rd[fn][1] == n and rd[fn][0] != dg:
                 failures.append(dict(key='kernel-digest-differs-from-generic-C:%s' % fn, detail='variant %s group %s n=%d..%d: %s/%d vs %s/%d' % (s['variant'], s['grp'], s['lo'], s['hi'], dg, n, rd[fn][0], rd[fn][1]), variant=s['variant'], spec=None,
                                      cmds=['sweep %s %d %d' % (s['grp'], s['lo'], s['hi'])], replies=[], stderr=''))
     cov = dict(evaluations=agg['evaluations'] + kcalls, api_calls=agg['evaluations'], kernel_calls=kcalls, kernel_functions=sorted(kfn), distinct_nontrivial=len(agg['tags']),
